@@ -8,7 +8,7 @@ import Iauthd.Conf.Spec
 set_option linter.unusedSimpArgs false
 namespace Iauthd.Conf
 open Iauthd.Conf.Spec (Esc StrLay encByte encBody hexEsc hexDigitL hexDigitU namedEsc bslOk renderStr canBare isTokenByte
-  gapAny gapFlat gapTable gapTableFlat)
+  gapAny gapFlat gapTable gapTableFlat GapPiece blockBodyOk lineTextOk wsByteOk renderPiece renderPieces decodeGap)
 
 /-! ### hex digits -/
 
@@ -312,34 +312,134 @@ theorem gapOK_line9 : GapOK false [47,47,32,120,10] := by
   rw [ws_open_line, ws_line_step _ _ _ (by decide), ws_line_step _ _ _ (by decide), ws_line_close]
   simp [bump]
 
+/-! ### gaps of the general grammar -/
+
+theorem block_skip (care : Bool) (B tail : Bytes) (h : blockBodyOk B = true) :
+    wsGo care .block (B ++ 42 :: 47 :: tail) = bump (B.length + 2) (wsGo care .norm tail) := by
+  induction B with
+  | nil => simpa using ws_block_close care tail
+  | cons c B' ih =>
+    cases B' with
+    | nil =>
+      simp only [List.cons_append, List.nil_append]
+      rw [ws_block_step _ _ _ _ (by intro ⟨_, h2⟩; exact absurd h2 (by decide)), ws_block_close, bump_bump]
+      simp
+    | cons d B'' =>
+      simp only [blockBodyOk, Bool.and_eq_true, Bool.not_eq_true', Bool.and_eq_false_iff] at h
+      obtain ⟨⟨_, hcd⟩, hrest⟩ := h
+      have hstep : ¬ (c = 42 ∧ d = 47) := by
+        intro ⟨h1, h2⟩
+        rcases hcd with hh | hh
+        · simp [h1] at hh
+        · simp [h2] at hh
+      have := ih hrest
+      simp only [List.cons_append] at this ⊢
+      rw [ws_block_step _ _ _ _ hstep, this, bump_bump]
+      simp
+
+theorem gapOK_block (care : Bool) (B : Bytes) (h : blockBodyOk B = true) : GapOK care ([47, 42] ++ B ++ [42, 47]) := by
+  intro tail
+  have e : [47, 42] ++ B ++ [42, 47] ++ tail = 47 :: 42 :: (B ++ 42 :: 47 :: tail) := by simp
+  rw [e, ws_open_block, block_skip care B tail h, bump_bump]
+  simp
+
+theorem line_skip (T tail : Bytes) (h : lineTextOk T = true) :
+    wsGo false .line (T ++ 10 :: tail) = bump (T.length + 1) (wsGo false .norm tail) := by
+  induction T with
+  | nil => simpa using ws_line_close tail
+  | cons c T' ih =>
+    simp only [lineTextOk, List.all_cons, Bool.and_eq_true, bne_iff_ne, ne_eq] at h
+    have h' : lineTextOk T' = true := by simpa [lineTextOk] using h.2
+    simp only [List.cons_append]
+    rw [ws_line_step _ _ _ h.1.2, ih h', bump_bump]
+    simp
+
+theorem gapOK_line (T : Bytes) (h : lineTextOk T = true) : GapOK false ([47, 47] ++ T ++ [10]) := by
+  intro tail
+  have e : [47, 47] ++ T ++ [10] ++ tail = 47 :: 47 :: (T ++ 10 :: tail) := by simp
+  rw [e, ws_open_line, line_skip T tail h, bump_bump]
+  simp
+
+theorem blockBodyOk_nil : blockBodyOk [] = true := rfl
+theorem lineTextOk_nil : lineTextOk [] = true := rfl
+
+theorem wsByteOk_space (c : UInt8) (h : wsByteOk c = true) : isSpaceC c = true ∧ c ≠ 10 := by
+  simp only [wsByteOk, Bool.or_eq_true, beq_iff_eq] at h
+  rcases h with (((h | h) | h) | h) | h <;> subst h <;> decide
+
+theorem gapOK_wsByte (care : Bool) (c : UInt8) : GapOK care [if wsByteOk c then c else 32] := by
+  by_cases h : wsByteOk c = true
+  · rw [if_pos h]; exact ws_space care c (wsByteOk_space c h).1 (wsByteOk_space c h).2
+  · rw [if_neg h]; exact gapOK_sp care
+
+theorem gapOK_blockOpt (care : Bool) (B : Bytes) :
+    GapOK care ([47, 42] ++ (if blockBodyOk B then B else []) ++ [42, 47]) := by
+  by_cases h : blockBodyOk B = true
+  · rw [if_pos h]; exact gapOK_block care B h
+  · rw [if_neg h]; exact gapOK_block care [] rfl
+
+theorem gapOK_lineOpt (T : Bytes) : GapOK false ([47, 47] ++ (if lineTextOk T then T else []) ++ [10]) := by
+  by_cases h : lineTextOk T = true
+  · rw [if_pos h]; exact gapOK_line T h
+  · rw [if_neg h]; exact gapOK_line [] rfl
+
+/-- every piece rendered for a newline-free position is skipped with and without `care_eof` -/
+theorem renderPiece_flat_ok (care : Bool) (p : GapPiece) : GapOK care (renderPiece true p) := by
+  cases p with
+  | ws c => exact gapOK_wsByte care c
+  | nl => simpa [renderPiece] using gapOK_sp care
+  | block B => exact gapOK_blockOpt care B
+  | line T => simpa [renderPiece] using gapOK_blockOpt care T
+
+theorem renderPiece_any_ok (p : GapPiece) : GapOK false (renderPiece false p) := by
+  cases p with
+  | ws c => exact gapOK_wsByte false c
+  | nl => simpa [renderPiece] using ws_nl
+  | block B => exact gapOK_blockOpt false B
+  | line T => simpa [renderPiece] using gapOK_lineOpt T
+
+theorem renderPieces_flat_ok (care : Bool) (ps : List GapPiece) : GapOK care (renderPieces true ps) := by
+  induction ps with
+  | nil => exact gapOK_nil care
+  | cons p ps ih => exact gapOK_append (renderPiece_flat_ok care p) ih
+
+theorem renderPieces_any_ok (ps : List GapPiece) : GapOK false (renderPieces false ps) := by
+  induction ps with
+  | nil => exact gapOK_nil false
+  | cons p ps ih => exact gapOK_append (renderPiece_any_ok p) ih
+
 theorem gapFlat_ok (care : Bool) (g : Nat) : GapOK care (gapFlat g) := by
   unfold gapFlat
-  rw [gapTableFlat_lit]
-  rcases mod10_cases g with h | h | h | h | h | h | h | h | h | h <;> rw [h] <;> simp only [List.getD_cons_zero, List.getD_cons_succ]
-  · exact gapOK_nil care
-  · exact gapOK_sp care
-  · exact gapOK_sp care
-  · exact gapOK_tab care
-  · exact gapOK_c4 care
-  · exact gapOK_c4 care
-  · simpa using gapOK_append (gapOK_sp care) (gapOK_sp care)
-  · exact gapOK_c7 care
-  · simpa using gapOK_append (gapOK_sp care) (gapOK_append (gapOK_c8core care) (gapOK_sp care))
-  · simpa using gapOK_append (gapOK_tab care) (gapOK_append (gapOK_c9core care) (gapOK_sp care))
+  by_cases hg : g < 36
+  · rw [if_pos hg, gapTableFlat_lit]
+    rcases mod10_cases g with h | h | h | h | h | h | h | h | h | h <;> rw [h] <;> simp only [List.getD_cons_zero, List.getD_cons_succ]
+    · exact gapOK_nil care
+    · exact gapOK_sp care
+    · exact gapOK_sp care
+    · exact gapOK_tab care
+    · exact gapOK_c4 care
+    · exact gapOK_c4 care
+    · simpa using gapOK_append (gapOK_sp care) (gapOK_sp care)
+    · exact gapOK_c7 care
+    · simpa using gapOK_append (gapOK_sp care) (gapOK_append (gapOK_c8core care) (gapOK_sp care))
+    · simpa using gapOK_append (gapOK_tab care) (gapOK_append (gapOK_c9core care) (gapOK_sp care))
+  · rw [if_neg hg]; exact renderPieces_flat_ok care _
 
 theorem gapAny_ok (g : Nat) : GapOK false (gapAny g) := by
   unfold gapAny
-  rw [gapTable_lit]
-  rcases mod10_cases g with h | h | h | h | h | h | h | h | h | h <;> rw [h] <;> simp only [List.getD_cons_zero, List.getD_cons_succ]
-  · exact gapOK_nil false
-  · exact gapOK_sp false
-  · exact ws_nl
-  · exact gapOK_tab false
-  · exact gapOK_c4 false
-  · exact gapOK_line5
-  · simpa using gapOK_append (gapOK_sp false) (gapOK_sp false)
-  · exact gapOK_c7 false
-  · simpa using gapOK_append (gapOK_sp false) (gapOK_append (gapOK_c8core false) (gapOK_sp false))
-  · simpa using gapOK_append ws_nl (gapOK_append (gapOK_tab false) (gapOK_append gapOK_line9 (gapOK_sp false)))
+  by_cases hg : g < 36
+  · rw [if_pos hg, gapTable_lit]
+    rcases mod10_cases g with h | h | h | h | h | h | h | h | h | h <;> rw [h] <;> simp only [List.getD_cons_zero, List.getD_cons_succ]
+    · exact gapOK_nil false
+    · exact gapOK_sp false
+    · exact ws_nl
+    · exact gapOK_tab false
+    · exact gapOK_c4 false
+    · exact gapOK_line5
+    · simpa using gapOK_append (gapOK_sp false) (gapOK_sp false)
+    · exact gapOK_c7 false
+    · simpa using gapOK_append (gapOK_sp false) (gapOK_append (gapOK_c8core false) (gapOK_sp false))
+    · simpa using gapOK_append ws_nl (gapOK_append (gapOK_tab false) (gapOK_append gapOK_line9 (gapOK_sp false)))
+  · rw [if_neg hg]; exact renderPieces_any_ok _
 
 end Iauthd.Conf
